@@ -595,6 +595,27 @@ def _ftn_solve_stops(unit: FUnit, ec, fc):
     return stops
 
 
+def r4c_empty_span(R) -> None:
+    """An empty span: the pure-Python `solve()` raises SolutionError (in `iter_periods()`); the wrapper, which does not call
+    `iter_periods()`, must reject it the same way before it takes `span[lags]` / `span[-1 - leads]` as the default bounds
+    (which raises IndexError on an empty span)."""
+    q = f'{FE}.solve'
+    f = Fn(R, q)
+    forms = ('len(self.span) == 0', 'len(self.span) < 1')
+    neg = ('self.span', 'len(self.span)', 'len(self.span) > 0')
+    rs = [r for r in f.raises('SolutionError') if any(f.holds(r.id, t_) for t_ in forms) or any(f.holds(r.id, t_, False) for t_ in neg)]
+    subs = [n for n in f.cfg.nodes if n.ast is not None and n.kind in ('stmt', 'test') and any(
+        isinstance(x, ast.Subscript) and text(x.value) in ('self.span', "self.__dict__['span']") and isinstance(x.ctx, ast.Load) for x in ast.walk(n.ast))]
+    if not subs:
+        R.inconclusive(q, 'the default bounds are not taken by subscripting the span: where an empty span would fail was not read')
+        return
+    guards_ = {tid for r in rs for (tid, _lab) in f.guards_of(r.id)}
+    ok = bool(rs) and all(any(g_ in f.dom[n.id] for g_ in guards_) for n in subs)
+    R.check(ok, q, 'empty-span-rejected', 'an empty span raises SolutionError before the span is subscripted, as in the pure-Python solve()',
+            f'`{text(subs[0].ast)[:60]}` subscripts the span with no empty-span rejection before it: FortranEngine.solve() on an empty span raises IndexError where the pure-Python '
+            f'solve() raises SolutionError (`Object `span` is empty`) - a different exception type for the same call', where=f.where(subs[0]))
+
+
 def r4b_outcome_recorded_before_raise(R) -> None:
     """The pure-Python engine records the status and the iteration count of a period and *then* raises for it
     (NonConvergenceError after 'F', SolutionError after 'E').  The wrappers must leave the same record behind: every such
@@ -966,7 +987,7 @@ def run(R) -> None:
     R.rule('C07.R2', lambda: r2_ffi_agreement(R, unit))
     R.rule('C07.R2b', lambda: r2b_results_stored_first(R))
     R.rule('C07.R3', lambda: r3_index_base(R, unit))
-    R.rule('C07.R4', lambda: (r4_code_tables(R, unit), r4b_outcome_recorded_before_raise(R)))
+    R.rule('C07.R4', lambda: (r4_code_tables(R, unit), r4b_outcome_recorded_before_raise(R), r4c_empty_span(R)))
     R.rule('C07.R5', lambda: r5_skeleton(R, unit))
     R.rule('C07.R5b', lambda: c03.r7_default_range(R))
     R.rule('C07.R6', lambda: r6_equation_rewrite(R))
